@@ -79,7 +79,7 @@ class Builder:
         return nm
 
 
-def gen_netlist(rng, polarity='mixed', icmode='none', srckw='same', extras=True, ground_mid=False, small=False):
+def gen_netlist(rng, polarity='mixed', icmode='none', srckw='same', extras=True, ground_mid=False, small=False, kw=None):
     """returns dict(lines, tags).  polarity: 'same' (every like element of a group
     points the same way along the chain / across the pair) | 'mixed'.
     icmode: none | equal | unequal | partial.  srckw: same | mixed."""
@@ -93,7 +93,7 @@ def gen_netlist(rng, polarity='mixed', icmode='none', srckw='same', extras=True,
         if n >= 1:
             i, j = rng.sample(range(0, n + 1), 2)
             edges.append((nodes[i], nodes[j]))
-    kw_all = rng.choice(['', '', 'dc', 'step', 'step'])
+    kw_all = kw if kw is not None else rng.choice(['', '', 'dc', 'step', 'step'])
 
     def pick_kw():
         if srckw == 'same':
@@ -193,6 +193,22 @@ def gen_netlist(rng, polarity='mixed', icmode='none', srckw='same', extras=True,
                 b.tags.add('disconnected')
     b.tags.add('pol_' + polarity)
     b.tags.add('ic_' + icmode)
+    # a pure DC analysis of series capacitors / parallel inductors is not well
+    # posed (floating nodes, loops of shorts): unless some element carries an
+    # initial condition (initial-value analysis) make the sources steps
+    has_ic = any(l.split()[0][0] in 'CL' and len(l.split()) > 4 for l in b.lines)
+    reactive = any(l.split()[0][0] in 'CL' for l in b.lines)
+    if reactive and not has_ic:
+        out = []
+        for l in b.lines:
+            t = l.split()
+            if t[0][0] in 'VI' and len(t) >= 4:
+                if t[3] == 'dc':
+                    t[3] = 'step'
+                elif t[3] != 'step' and len(t) == 4 and not re.search(r'(?<![A-Za-z_])s(?![A-Za-z_0-9])', t[3]):
+                    t.insert(3, 'step')
+            out.append(' '.join(t))
+        b.lines = out
     return {'lines': b.lines, 'tags': sorted(b.tags)}
 
 
@@ -280,7 +296,33 @@ def chains(elems):
     return [(g[0], g[1]) for g in groups.values() if len(g[0]) > 1], uf
 
 
-def oracle(case, orig_elems, new_elems, so, sn):
+def exempt_from_log(log):
+    """node classes strictly inside a series chain in which something was
+    combined, stage by stage (the stage netlists and the combined groups are
+    read from the recorded run; the chains are recomputed here)"""
+    exempt = set()
+    stage = None
+    for ent in log or []:
+        if ent[0] == 'stage':
+            stage = ent if ent[1] == 'series' else None
+            if stage is not None:
+                stage = {'chains': chains(ent[2])}
+        elif ent[0] == 'list' and stage is not None:
+            chs, uf = stage['chains']
+            grp = set(ent[1])
+            for names, inter in chs:
+                if len(names & grp) >= 2:
+                    for cl in inter:
+                        if not cl.startswith('0'):
+                            exempt.add(cl)
+                            # every node name of that class
+                            for n in list(uf.p):
+                                if uf.find(n) == cl:
+                                    exempt.add(n)
+    return exempt
+
+
+def oracle(case, orig_elems, new_elems, so, sn, log=None):
     """list of (kind, detail) electrical differences between the original and the
     rewritten circuit; [] when the retained voltages/currents agree; None when
     the original circuit has no solution to compare with."""
@@ -291,6 +333,9 @@ def oracle(case, orig_elems, new_elems, so, sn):
     if any(v is None for v in so['V'].values()):
         return None
     if not sn or 'error' in sn:
+        kn = (case.get('args') or {}).get('keep_nodes')
+        if sn and sn.get('error') == 'no ground' and kn is not None and '0' not in [str(k) for k in kn]:
+            return None                  # the caller asked not to keep the reference node
         return [('new-unsolvable', (sn or {}).get('error', 'no solution'))]
     orig = {e['name']: e for e in w['orig']}
     new = {e['name']: e for e in w['new']}
@@ -306,19 +351,12 @@ def oracle(case, orig_elems, new_elems, so, sn):
                 if a is None or b_ is None or Fraction(a) != Fraction(b_):
                     bad.append(('component-%s' % kind[1], '%s: %s -> %s' % (nm, a, b_)))
     # retained nodes
-    exempt = set()
-    chs, uf = chains(w['orig'])
-    gone = {nm for nm in orig if nm not in new or new[nm]['line'] != orig[nm]['line']}
-    for names, inter in chs:
-        if simplify and names & gone:
-            for cl in inter:
-                if not cl.startswith('0'):
-                    exempt.add(cl)
+    exempt = exempt_from_log(log) if simplify else set()
     for n, a in so['V'].items():
         n2 = rename.get(n, n)
         if n2 not in sn['V']:
             continue
-        if uf.find(n) in exempt:
+        if n in exempt:
             continue
         b_ = sn['V'][n2]
         if b_ is None or Fraction(a) != Fraction(b_):
